@@ -680,7 +680,7 @@ func execUpord(op Op) []string {
 	select {
 	case <-done:
 		L.Close()
-	case <-time.After(120 * time.Second):
+	case <-hangAfter(120 * time.Second):
 		return []string{"X timeout => upord"}
 	}
 	return w.out
